@@ -109,3 +109,17 @@ Lemma mok_item_aot ts sp : mok_item (IAot ts sp) = forallb mok_elem ts.
 Proof.
   cbn [mok_item]. induction ts as [|t tl IH]; [reflexivity|]. cbn [forallb]. rewrite <- IH. reflexivity.
 Qed.
+
+(* ---- builders for Examples and tests: one-letter keys, no decoration ------------------------ *)
+Definition tkey (b : byte) : key := mkKey [b] None decor_default decor_default.
+Definition tval (i : Z) : value := VScalar (SInt i) None decor_default.
+Definition m_hdr (arr : bool) (p : list byte) : mstmt :=
+  match pop_key (map tkey p) with
+  | Some (pre, k) => MHeader arr pre k (0, 0)%N (0, 0)%N
+  | None => MHeader arr [] (tkey x00) (0, 0)%N (0, 0)%N
+  end.
+Definition m_kv (p : list byte) (v : value) : mstmt :=
+  match pop_key (map tkey p) with
+  | Some (pre, k) => MKeyVal pre k v
+  | None => MKeyVal [] (tkey x00) v
+  end.
